@@ -3,11 +3,11 @@
 (* exactly the 2x2 fixed pattern), uses data+check codewords many shapes, and the corner cases each size triggers are    *)
 (* recorded; size table laws; the encoder model of ASCII encodation + 253-state padding (transcribed from               *)
 (* encodeText/addPadding) is inverted by the reader automaton for all class strings up to MaxLen and every pad run.      *)
-EXTENDS DM, TLC
+EXTENDS DMEnc, TLC
 CONSTANT MaxLen
 VARIABLES phase, i, s
 vars == <<phase, i, s>>
-Classes == {53, 65, 200}                  \* a digit, an ASCII non-digit, a byte above 127
+Classes == {53, 65, 200, 181}             \* a digit, an ASCII non-digit, a byte above 127, a byte above 127 whose low seven bits are a digit
 Init == \/ phase = "place" /\ i \in 1..24 /\ s = <<>>
         \/ phase = "ascii" /\ i = 0 /\ s = <<>>
 Next == phase = "ascii" /\ Len(s) < MaxLen /\ \E c \in Classes : s' = Append(s, c) /\ UNCHANGED <<phase, i>>
@@ -28,19 +28,6 @@ SizeLaws == phase = "place" =>
   /\ (i > 1 => Sizes[i][3] > Sizes[i - 1][3] /\ Sizes[i][1] > Sizes[i - 1][1])
   /\ ((Sizes[i][3] + Sizes[i][5] - 1) \div Sizes[i][5]) + (Sizes[i][4] \div Sizes[i][5]) <= 255
 
-\* encoder model (transcription of encodeText and addPadding)
-RECURSIVE EncText(_, _)
-EncText(bytes, k) == IF k > Len(bytes) THEN <<>>
-                     ELSE IF IsDigit(bytes[k]) /\ k < Len(bytes) /\ IsDigit(bytes[k + 1])
-                          THEN <<(bytes[k] - 48) * 10 + (bytes[k + 1] - 48) + 130>> \o EncText(bytes, k + 2)
-                     ELSE IF bytes[k] > 127 THEN <<235, bytes[k] - 127>> \o EncText(bytes, k + 1)
-                     ELSE <<bytes[k] + 1>> \o EncText(bytes, k + 1)
-RECURSIVE Pad(_, _)
-Pad(data, to) == IF Len(data) >= to THEN data
-                 ELSE LET R == ((149 * (Len(data) + 1)) % 253) + 1
-                          t == 129 + R
-                      IN Pad(Append(data, IF t > 254 THEN t - 254 ELSE t), to)
-AddPadding(data, to) == IF Len(data) < to THEN Pad(Append(data, 129), to) ELSE data
 AsciiRoundTrip == phase = "ascii" =>
   LET cw == EncText(s, 1) IN
   /\ Len(cw) = EncLen(s, 1) /\ EncLenIt(s) = EncLen(s, 1)
